@@ -198,6 +198,15 @@ fn sock_set(which: usize, v4fam: bool) -> Vec<SockSpec> {
             SockSpec::Icmp(IcmpBind::Tcp(Some(own), 4242)),
             SockSpec::Dns(vec![peer]),
         ],
+        // the socket set of the egress scenarios: no connecting socket (its SYN retransmissions
+        // would interleave with the observed event); UDP sockets at the same indices as in set 1
+        3 => vec![
+            SockSpec::TcpL(None, 80),
+            SockSpec::TcpX,
+            SockSpec::Udp(None, 5000),
+            SockSpec::Udp(Some(own), 5001),
+            SockSpec::Icmp(IcmpBind::Ident(0x1234)),
+        ],
         _ => vec![
             SockSpec::Raw(Some(if v4fam { 4 } else { 6 }), Some(17)),
             SockSpec::TcpL(Some(own), 80),
@@ -389,7 +398,7 @@ fn scenario_at(idx: usize) -> Scn {
             s.ev = Event::Rx(Rx { ll, pan, src, dst, hbh, upper });
             return s;
         } else {
-            let pairs: Vec<(usize, usize)> = if seg.v4fam { vec![(0, 1), (1, 1), (2, 1)] } else { vec![(0, 1), (1, 1), (2, 1), (3, 1)] };
+            let pairs: Vec<(usize, usize)> = if seg.v4fam { vec![(0, 3), (1, 3), (2, 3)] } else { vec![(0, 3), (1, 3), (2, 3), (3, 3)] };
             let (cfg, socks) = pairs[d[0]];
             let (mtu, len) = tx_points(seg.med, seg.v4fam)[d[3]];
             // configuration 1 = empty neighbor cache exists only on media with neighbors
@@ -428,6 +437,9 @@ fn gen_scenarios(seed: u64, n: usize, tier: &str, prefix: &str) -> Vec<(String, 
                 Upper::Tcp { sp, dp, len, ctl, .. } => {
                     if *ctl == Ctl::Psh && rng.chance(1, 2) {
                         *len = rng.range(1, 400) as usize;
+                        if s.med == Med::M154 {
+                            *len %= 30; // an 802.15.4 frame carries at most 127 octets
+                        }
                     }
                     if *dp == 9 && rng.chance(1, 2) {
                         *dp = rng.range(1024, 30000) as u16;
@@ -440,7 +452,7 @@ fn gen_scenarios(seed: u64, n: usize, tier: &str, prefix: &str) -> Vec<(String, 
                     if rng.chance(1, 2) {
                         *len = rng.range(0, 1400) as usize;
                         if s.med == Med::M154 {
-                            *len %= 60;
+                            *len %= 40;
                         }
                     }
                     if *dp == 9 && rng.chance(1, 2) {
@@ -451,7 +463,7 @@ fn gen_scenarios(seed: u64, n: usize, tier: &str, prefix: &str) -> Vec<(String, 
                     if rng.chance(1, 2) {
                         *len = rng.range(0, 1400) as usize;
                         if s.med == Med::M154 {
-                            *len %= 60;
+                            *len %= 40;
                         }
                     }
                     if *id == 0x9999 {
@@ -462,7 +474,7 @@ fn gen_scenarios(seed: u64, n: usize, tier: &str, prefix: &str) -> Vec<(String, 
                     if rng.chance(1, 2) {
                         *len = rng.range(0, 1400) as usize;
                         if s.med == Med::M154 {
-                            *len %= 60;
+                            *len %= 40;
                         }
                         *proto = *rng.pick(&[253u8, 254, 99, 47, 132]);
                     }
